@@ -308,7 +308,22 @@ func cmpKindOf(x ast.Expr, where string) string {
 
 func main() {
 	flag.StringVar(&repo, "repo", "/repo", "path of the couchbase/nitro working tree")
+	shapesOnly := flag.Bool("shapes", false, "print Gen/Shapes.lean instead of Gen/Guards.lean")
+	shapeLemmas := flag.String("shape-lemmas", "", "print the bootstrap of Lemmas/Shape<Area>.lean for this area")
 	flag.Parse()
+	if *shapesOnly {
+		emitShapes()
+		fmt.Print(out.String())
+		return
+	}
+	if *shapeLemmas != "" {
+		if _, ok := shapeAreas[*shapeLemmas]; !ok {
+			die("unknown area %s", *shapeLemmas)
+		}
+		emitShapeLemmas(*shapeLemmas)
+		fmt.Print(out.String())
+		return
+	}
 
 	emit("/-")
 	emit("  GENERATED by tools/gofacts from /repo's working tree -- DO NOT EDIT BY HAND.")
